@@ -18,7 +18,7 @@ Ok(e) == "ok" \in DOMAIN e.obs
 BoxCorners(v) == {<<v[1], v[2]>>, <<v[3], v[2]>>, <<v[3], v[4]>>, <<v[1], v[4]>>}
 
 Names == {"BoundsAccepted", "BoundsValueExact", "NonBoundsRejected", "GeoJsonExact", "BadGeometryRefused",
-          "CliEqualsLibrary", "CliFailsWhenLibraryFails", "CliRefusesBadRequest", "NoPartialOutput"}
+          "CliEqualsLibrary", "CliFailsWhenLibraryFails", "CliRefusesBadRequest", "NoPartialOutput", "BeyondTheGlobeRefused"}
 
 Holds(name, e) ==
   CASE name = "BoundsAccepted" -> (e.a \in {"BoundsArg", "GeometryArg"} /\ IsBounds(e.s)) => Ok(e)
@@ -39,6 +39,12 @@ Holds(name, e) ==
          (e.a = "Cli" /\ e.request = "good" /\ "err" \in DOMAIN e.lib) => (e.obs.exit # 0 /\ e.obs.message)
     [] name = "CliRefusesBadRequest" ->
          (e.a = "Cli" /\ e.request = "bad") => (e.obs.exit # 0 /\ e.obs.message)
+    [] name = "BeyondTheGlobeRefused" ->
+         \* a requested point more than 180 degrees from the prime meridian (11520 quanta) lies outside every model:
+         \* under the `error` policy the command fails, whatever the library call did
+         (e.a = "Cli" /\ e.cmd = "extract-points" /\ e.policy = "error"
+            /\ \E k \in 1..Len(e.points) : e.points[k][1] > 11520 \/ e.points[k][1] < 0 - 11520) =>
+            (e.obs.exit # 0 /\ e.obs.out = [absent |-> TRUE])
     [] name = "NoPartialOutput" ->
          (e.a = "Cli" /\ e.obs.exit # 0) => e.obs.out = [absent |-> TRUE]
 
